@@ -232,3 +232,34 @@ NOT_APPLICABLE = {
 for _p in ["C%02d" % i for i in range(1, 21)]:
     if _p not in CHECKS:
         NOT_APPLICABLE.setdefault(_p, PENDING)
+
+# ---- additions after the second seeding wave (2026-10-03)
+_ADD = {
+    "C01": " Condition-role lemmas are discharged below every logical-operator parent class (enumerated from the class hierarchy); Index / Call "
+           "mappings have their own cover lemmas; HashedValue identity (never derived from the value), _invert_ for every comparison operation "
+           "and the pass-through of a nested quantifier (every result once, every binding kept) are separate obligations.",
+    "C02": " The result quantifier's counting-loop contract (reported = pulled, containers kept by the loop of unknown content) and _invert_ "
+           "for every comparison operation are part of the check.",
+    "C03": " The node list an evaluation announces itself to is the real _all_nodes_ over a tree that grows between evaluations; rule surgery "
+           "is checked with stale evaluation parents on every node (C08 lemmas).",
+    "C04": " FunctionMapping persists (module, owning class, name) and returns exactly the function found under that triple, whatever was converted before.",
+    "C06": " The module of every column type (builtin, datetime, enum of another module) is imported by the generated file.",
+    "C07": " String containment forms are pinned to instr(container, item) > 0 terms (never LIKE).",
+    "C08": " Surgery lemmas also hold when an earlier evaluation left its parent pointers on the nodes; a later `with query:` block enters the base "
+           "rule again; Alternative / Next pass every result of the else-if / union below them on exactly once.",
+    "C09": " The stream contracts hold under any parent (user or enclosing query) and every binding of the child's result is passed on.",
+    "C10": " Node labels are computed by the real _name_ properties under the effect contract (formatting user data is an effect); Exists and "
+           "Flatten have streaming contracts (no result after the child stream ended, nothing copied).",
+    "C11": " Resolving a pattern does not rewrite its requested type or flags (match and select alike); every keyword is a constraint whatever its value.",
+    "C12": " 'Variable argument' ranges over every subclass of CanBehaveLikeAVariable; class-level containers of the expression classes are of unknown "
+           "content when a predicate use starts (failures that depend on that over-approximation need a native witness).",
+    "C13": " A live instance's truth value is arbitrary in the graph model (user classes may define __len__ / __bool__).",
+    "C14": " A live instance's truth value is arbitrary in the graph model (user classes may define __len__ / __bool__).",
+    "C15": " C16's assertion contracts (every value written into a managed field reaches add_relation_to_the_graph once) are re-checked under C15; "
+           "the transitive rule composes with asserted and inferred edges of the same descriptor class.",
+    "C16": " Owners and elements are instances of classes with a __len__ of symbolic size (possibly falsy).",
+    "C18": " Registry lookup is by the exact type; a serialisable object that is iterable is still serialised as an object.",
+}
+for _k, _v in _ADD.items():
+    if _k in CHECKS and "text" in CHECKS[_k]:
+        CHECKS[_k]["text"] += _v
